@@ -331,6 +331,37 @@ impl<T> DataReaderEntity<T> {
         reception_timestamp: Time,
     ) -> DdsResult<AddChangeResult> {
         let instance_handle = InstanceHandle::new(change_instance_handle);
+        // With exclusive ownership a change from a writer that is not allowed to modify the
+        // instance must not have any effect, so check this before updating the instance state
+        if self.qos.ownership.kind == OwnershipQosPolicyKind::Exclusive {
+            if let Some(instance_owner) = self
+                .instance_ownership
+                .iter()
+                .find(|x| x.instance_handle == instance_handle)
+            {
+                let instance_writer: [u8; 16] = writer_guid.into();
+                let Some(sample_writer) = self
+                    .matched_publication_list
+                    .iter()
+                    .find(|x| x.key().value == instance_writer)
+                else {
+                    return Ok(AddChangeResult::NotAdded);
+                };
+                // An owner which is no longer matched does not own the instance anymore
+                if let Some(sample_owner) = self
+                    .matched_publication_list
+                    .iter()
+                    .find(|x| x.key().value == instance_owner.owner_handle)
+                {
+                    if instance_owner.owner_handle != instance_writer
+                        && sample_writer.ownership_strength().value
+                            <= sample_owner.ownership_strength().value
+                    {
+                        return Ok(AddChangeResult::NotAdded);
+                    }
+                }
+            }
+        }
         // Update the state of the instance before creating since this has direct impact on
         // the information that is stored on the sample
         match change_kind {
@@ -384,37 +415,7 @@ impl<T> DataReaderEntity<T> {
         };
 
         let change_instance_handle = sample.instance_handle;
-        // data_reader exclusive access if the writer is not the allowed to write the sample do an early return
         if self.qos.ownership.kind == OwnershipQosPolicyKind::Exclusive {
-            // Get the InstanceHandle of the data writer owning this instance
-            if let Some(instance_owner) = self
-                .instance_ownership
-                .iter()
-                .find(|x| x.instance_handle == sample.instance_handle)
-            {
-                let instance_writer = InstanceHandle::new(sample.writer_guid);
-                let Some(sample_owner) = self
-                    .matched_publication_list
-                    .iter()
-                    .find(|x| x.key().value == instance_owner.owner_handle.as_ref())
-                else {
-                    return Ok(AddChangeResult::NotAdded);
-                };
-                let Some(sample_writer) = self
-                    .matched_publication_list
-                    .iter()
-                    .find(|x| &x.key().value == instance_writer.as_ref())
-                else {
-                    return Ok(AddChangeResult::NotAdded);
-                };
-                if instance_owner.owner_handle != sample.writer_guid
-                    && sample_writer.ownership_strength().value
-                        <= sample_owner.ownership_strength().value
-                {
-                    return Ok(AddChangeResult::NotAdded);
-                }
-            }
-
             match self
                 .instance_ownership
                 .iter_mut()
